@@ -220,6 +220,15 @@ func (cv *ConfigValue) NamespacedName() (namespace, name string, err error) {
 	return "", "", fmt.Errorf("a globally configured resource name is missing the namespace: %s", cv.Value)
 }
 
+// SourceNamespace returns the namespace of the resource that declared the
+// value, or an empty string if the value comes from the global configuration.
+func (cv *ConfigValue) SourceNamespace() string {
+	if cv.Source != nil {
+		return cv.Source.Namespace
+	}
+	return ""
+}
+
 // ToLower ...
 func (cv *ConfigValue) ToLower() string {
 	return strings.ToLower(cv.Value)
